@@ -357,7 +357,23 @@ Proof.
   intros a_nat b_nat a_eff b_eff ev rp Hplain H.
   destruct a_nat; try contradiction; destruct b_nat; cbn [arg_layout_compatible] in H;
     match type of H with
-    | (if ?c then _ else _) = _ => destruct c; [reflexivity|discriminate H]
+    | (if (?c && _ && _) then _ else _) = _ => destruct c; [reflexivity|cbn [andb] in H; discriminate H]
+    end.
+Qed.
+
+(* since fix F16: ... and only if each side's type is unchanged between its native and the effective version *)
+Theorem plain_arg_by_ref_needs_unchanged : forall a_nat b_nat a_eff b_eff ev rp,
+  (match a_nat with SFuture _ _ _ _ | SFnClosure _ _ | SBoxed _ | STrait _ _ => False | _ => True end) ->
+  arg_layout_compatible a_nat b_nat a_eff b_eff ev rp = LYes ->
+  bytes_eqb (ser 2 a_nat) (ser 2 a_eff) = true /\ bytes_eqb (ser 2 b_nat) (ser 2 b_eff) = true.
+Proof.
+  intros a_nat b_nat a_eff b_eff ev rp Hplain H.
+  destruct a_nat; try contradiction; destruct b_nat; cbn [arg_layout_compatible] in H;
+    match type of H with
+    | (if (?c && ?d && ?e) then _ else _) = _ =>
+        destruct c; [|cbn [andb] in H; discriminate H];
+        destruct d; [|cbn [andb] in H; discriminate H];
+        destruct e; [split; reflexivity|cbn [andb] in H; discriminate H]
     end.
 Qed.
 
